@@ -986,6 +986,18 @@ func (ev *evalCtx) call(x *ast.CallExpr, want types.Type) (string, types.Type, e
 		if err != nil {
 			return "", nil, err
 		}
+		// a branch that is an untyped constant takes the type of the other branch
+		if isUntypedConstExpr(x.Args[1]) && !isUntypedConstExpr(x.Args[2]) {
+			b, tb, err := ev.expr(x.Args[2], want)
+			if err != nil {
+				return "", nil, err
+			}
+			a, _, err := ev.expr(x.Args[1], tb)
+			if err != nil {
+				return "", nil, err
+			}
+			return ite(cnd, a, b), tb, nil
+		}
 		a, ta, err := ev.expr(x.Args[1], want)
 		if err != nil {
 			return "", nil, err
@@ -1361,6 +1373,26 @@ func (ev *evalCtx) call(x *ast.CallExpr, want types.Type) (string, types.Type, e
 			return fmt.Sprintf("(not (= (fn_id %s) 0))", a), boolT, nil
 		}
 		return "", nil, fmt.Errorf("nonnil of %s", t)
+	case "implements":
+		// implements(x, I): interface value x is non-nil and its dynamic type satisfies the
+		// interface type I (the relation type assertions x.(I) test)
+		if err := argc(2); err != nil {
+			return "", nil, err
+		}
+		a, _, err := ev.expr(x.Args[0], nil)
+		if err != nil {
+			return "", nil, err
+		}
+		t := ev.lookupType(x.Args[1])
+		if t == nil {
+			return "", nil, fmt.Errorf("implements: unknown type %s", exprString(x.Args[1]))
+		}
+		if _, isI := t.Underlying().(*types.Interface); !isI {
+			return "", nil, fmt.Errorf("implements: %s is not an interface type", t)
+		}
+		ev.c.noteIfaceAssert(t)
+		ev.c.syncImplFacts()
+		return fmt.Sprintf("(and (not (= (i_typ %s) 0)) (implements (i_typ %s) %d))", a, a, ev.c.P.typeID(t)), boolT, nil
 	case "typeis":
 		// typeis(x, T): dynamic type of interface x is T
 		if err := argc(2); err != nil {
@@ -1766,3 +1798,17 @@ func (ms *modSet) kinds(c *FnVC) map[string]bool {
 }
 
 func atoi(s string) int { n, _ := strconv.Atoi(s); return n }
+
+func isUntypedConstExpr(e ast.Expr) bool {
+	switch x := e.(type) {
+	case *ast.BasicLit:
+		return true
+	case *ast.ParenExpr:
+		return isUntypedConstExpr(x.X)
+	case *ast.UnaryExpr:
+		return isUntypedConstExpr(x.X)
+	case *ast.BinaryExpr:
+		return isUntypedConstExpr(x.X) && isUntypedConstExpr(x.Y)
+	}
+	return false
+}
